@@ -17,14 +17,14 @@ def make(family, rng, tier):
     if family == "many":
         scn = sysgen.gen_many(rng, "naive", tier)
         scn["oracles"] = ORACLES
-        scn["defer"] = ["C01.", "C02."]
+        scn["defer"] = ["C01.", "C02.", "C03.conservation"]
         return scn
     if family == "gen":
         scn = sysgen.gen_generated(rng, rng.choice(ALGOS) if ALGOS else None, tier)
     else:
         scn = sysgen.gen(rng, rng.choice(ALGOS) if ALGOS else None, PROP, tier)
     scn["oracles"] = ORACLES
-    scn["defer"] = ["C01.", "C02."]
+    scn["defer"] = ["C01.", "C02.", "C03.conservation"]
     if not scn["cfg"]["multi"] and rng.random() < 0.2:
         scn["executor_permissive"] = True
     if "pipes" in scn and rng.random() < 0.2:
